@@ -104,6 +104,18 @@ enum Unit {
         header: String,
         fns: Vec<FnSpec>,
     },
+    #[serde(rename = "trait")]
+    Trait {
+        file: String,
+        name: String,
+        /// extra items (spec fns) emitted inside the trait
+        #[serde(default)]
+        extra: String,
+        /// override of the header, e.g. "pub trait InnerExpr: Sized"
+        #[serde(default)]
+        header: String,
+        fns: Vec<FnSpec>,
+    },
     #[serde(rename = "table")]
     Table {
         what: String,
@@ -1798,6 +1810,72 @@ fn table_quote_idents(src: &Src, prefix: &str) -> Result<(String, usize, usize),
     Ok((out, 0, src.text.len()))
 }
 
+
+/// R9: `parse_n_or_empty_unit_fn! { name => [count, allow_empty], .. }` in expr_group.rs
+fn table_unit_parsers(src: &Src, name: &str) -> Result<(String, usize, usize), String> {
+    struct F {
+        found: Option<(TokenStream, usize, usize)>,
+    }
+    impl<'ast> Visit<'ast> for F {
+        fn visit_macro(&mut self, m: &'ast syn::Macro) {
+            if m.path.segments.last().unwrap().ident == "parse_n_or_empty_unit_fn" {
+                let (s, e) = br(m.span());
+                self.found = Some((m.tokens.clone(), s, e));
+            }
+        }
+    }
+    let mut f = F { found: None };
+    f.visit_file(&src.file);
+    let (ts, s, e) = f.found.ok_or("parse_n_or_empty_unit_fn! invocation not found")?;
+    let toks: Vec<TokenTree> = ts.into_iter().collect();
+    let mut rows = String::new();
+    let mut i = 0;
+    while i < toks.len() {
+        let fname = match &toks[i] {
+            TokenTree::Ident(id) => id.to_string(),
+            t => return Err(format!("unit parser table: unexpected `{}`", t)),
+        };
+        // => [n, bool]
+        let grp = match (toks.get(i + 1), toks.get(i + 2), toks.get(i + 3)) {
+            (Some(TokenTree::Punct(a)), Some(TokenTree::Punct(b)), Some(TokenTree::Group(g)))
+                if a.as_char() == '=' && b.as_char() == '>' && g.delimiter() == Delimiter::Bracket =>
+            {
+                g.stream().to_string()
+            }
+            _ => return Err("unit parser table: expected `=> [n, bool]`".into()),
+        };
+        let parts: Vec<String> = grp.split(',').map(|x| x.trim().to_string()).collect();
+        if parts.len() != 2 {
+            return Err(format!("unit parser table: `[{}]`", grp));
+        }
+        let pfn = match fname.strip_prefix("parse_").and_then(|x| x.strip_suffix("_unit")) {
+            Some(mid) => mid
+                .split('_')
+                .map(|w| {
+                    let mut c = w.chars();
+                    c.next().map(|f| f.to_uppercase().collect::<String>() + c.as_str()).unwrap_or_default()
+                })
+                .collect::<String>(),
+            None => return Err(format!("unit parser `{}`", fname)),
+        };
+        rows.push_str(&format!("        ParseFn::{} => ({}int, {}),\n", pfn, parts[0], parts[1]));
+        i += 4;
+        if let Some(TokenTree::Punct(p)) = toks.get(i) {
+            if p.as_char() == ',' {
+                i += 1;
+            }
+        }
+    }
+    Ok((
+        format!(
+            "/// R9 table: `parse_n_or_empty_unit_fn!{{..}}`: unit parser => (operand count, operands may be omitted)\npub open spec fn {}(p: ParseFn) -> (int, bool) {{\n    match p {{\n{}    }}\n}}\n",
+            name, rows
+        ),
+        s,
+        e,
+    ))
+}
+
 // ---------------------------------------------------------------- R8: expression extraction
 /// R8 expression extraction from a function that is out of Verus' reach as a whole.
 /// The generated function consists of the *prefix* of the real body (every statement before the
@@ -2107,6 +2185,30 @@ fn main() {
                     n: 0,
                 };
                 st.visit_item(it);
+                // R1: private fields are made `pub` (Verus treats a datatype with a private field as
+                // opaque in contracts of public functions); visibility has no run-time meaning
+                if let syn::Item::Struct(sd) = it {
+                    let mut widened = 0;
+                    for f in sd.fields.iter() {
+                        if matches!(f.vis, syn::Visibility::Inherited) {
+                            let pos = match &f.ident {
+                                Some(id) => br(id.span()).0,
+                                None => br(f.ty.span()).0,
+                            };
+                            st.n += 1;
+                            st.edits.push(Edit { start: pos, end: pos, text: "pub ".to_string(), order: st.n });
+                            widened += 1;
+                        }
+                    }
+                    if widened > 0 {
+                        log.rewrites.push(Rewrite {
+                            rule: "R1-pub-fields".into(),
+                            item: format!("type {}", name),
+                            orig: format!("{} private field(s)", widened),
+                            repl: "pub".into(),
+                        });
+                    }
+                }
                 let (s, e) = br(sp);
                 let mut text = match apply_edits(&src.text, s, e, st.edits) {
                     Ok(t) => t,
@@ -2308,11 +2410,87 @@ fn main() {
                 }
                 emit!("}\n".to_string(), "impl end".to_string(), "raw", String::new(), 0, 0);
             }
+            Unit::Trait {
+                file,
+                name,
+                extra,
+                header,
+                fns,
+            } => {
+                let src = load!(file);
+                let mut items = Vec::new();
+                collect_items(&src.file.items, &mut items);
+                let tr = items.iter().find_map(|it| match it {
+                    syn::Item::Trait(t) if t.ident == name.as_str() && !skip_by_cfg(&t.attrs) => Some(t),
+                    _ => None,
+                });
+                let tr = match tr {
+                    Some(t) => t,
+                    None => die(&mut log, &log_path, format!("lost anchor: trait {} in {}", name, file)),
+                };
+                let hdr = if header.is_empty() {
+                    let s = br(tr.trait_token.span()).0;
+                    let e = br(tr.brace_token.span.open()).0;
+                    format!("pub {}", src.text[s..e].trim())
+                } else {
+                    header.clone()
+                };
+                emit!(format!("{} {{\n{}", hdr, extra), format!("trait {}", name), "raw", String::new(), 0, 0);
+                for ti in &tr.items {
+                    if let syn::TraitItem::Fn(f) = ti {
+                        let fname = f.sig.ident.to_string();
+                        let spec = match fns.iter().find(|x| x.name == fname) {
+                            Some(s) => s.clone(),
+                            None => FnSpec { name: fname.clone(), ..Default::default() },
+                        };
+                        let label = format!("trait {}::{}", name, fname);
+                        let vis_start = br(f.sig.span()).0;
+                        match &f.default {
+                            Some(block) => {
+                                match extract_fn(src, &f.attrs, vis_start, &f.sig, block, f.span(), &spec, &label, false, &plan.optargs, &mut log) {
+                                    Ok(fo) => {
+                                        log.items.push(format!("fn {}::{}", file, label));
+                                        emit!(fo.text, label, "fn", file.clone(), line_of(&src.text, fo.src_start), line_of(&src.text, fo.src_end));
+                                    }
+                                    Err(es) => die(&mut log, &log_path, format!("{}: {}", label, es.join("; "))),
+                                }
+                            }
+                            None => {
+                                // declaration only: signature + contract + `;`
+                                let fake: syn::Block = syn::parse_quote!({});
+                                let mut sp2 = spec.clone();
+                                sp2.mode = "decl".to_string();
+                                let _ = fake;
+                                let (ss, se) = br(f.sig.span());
+                                let mut sig_text = src.text[ss..se].to_string();
+                                if !sp2.ret.is_empty() {
+                                    if let syn::ReturnType::Type(_, ty) = &f.sig.output {
+                                        let (ts, te) = br(ty.span());
+                                        let t = src.text[ts..te].to_string();
+                                        sig_text = format!("{}({}: {}){}", &src.text[ss..ts], sp2.ret, t, &src.text[te..se]);
+                                    }
+                                }
+                                let mut clauses = String::new();
+                                if !sp2.requires.is_empty() {
+                                    clauses.push_str(&format!("\n    requires\n        {},", sp2.requires.join(",\n        ")));
+                                }
+                                if !sp2.ensures.is_empty() {
+                                    clauses.push_str(&format!("\n    ensures\n        {},", sp2.ensures.join(",\n        ")));
+                                }
+                                log.items.push(format!("decl {}::{}", file, label));
+                                emit!(format!("{}{}\n;\n", sig_text, clauses), label, "decl", file.clone(), line_of(&src.text, ss), line_of(&src.text, se));
+                            }
+                        }
+                    }
+                }
+                emit!("}\n".to_string(), "trait end".to_string(), "raw", String::new(), 0, 0);
+            }
             Unit::Table { what, file, name } => {
                 let src = load!(file);
                 let r = match what.as_str() {
                     "parse_action_expr" => table_parse_action_expr(src, name),
                     "names" => table_names(src, name),
+                    "unit_parsers" => table_unit_parsers(src, name),
                     "quote_idents" => table_quote_idents(src, name),
                     "determiners" => table_determiners(src, &plan.repo, name),
                     "configs" => table_configs(src, name),
